@@ -129,6 +129,42 @@ def run_shard(spec):
             col.count("diff_raised(C02's business)")
             continue
         check_diff(col, a, d, "generic", {"a": a, "b": b})
+    # the generic differ under a caller-supplied configuration (a public parameter, used by nbdime's own tests): lists
+    # of records aligned by an "id" member, or by Python's == (coarser than JSON equality: 1 == True)
+    import operator
+    from collections import defaultdict
+    from nbdime.diffing.config import DiffConfig
+    from nbdime.diffing.generic import diff as generic_diff
+    for _ in range(max(40, spec["random"] // 8)):
+        n = r.randrange(2, 8)
+        a = [{"id": "r%d" % i, "v": r.choice([i, "s%d" % i, [i], {"k": i}]), "flag": r.choice([1, True, 0, False])} for i in range(n)]
+        b = [dict(x) for x in a]
+        for _e in range(r.randrange(1, 4)):
+            k = r.randrange(len(b) + 1)
+            c = r.random()
+            if c < 0.35:
+                b.insert(k, {"id": "new%d" % r.randrange(99), "v": 0, "flag": 1})
+            elif c < 0.6 and b:
+                del b[min(k, len(b) - 1)]
+            elif b:
+                it = b[min(k, len(b) - 1)] = dict(b[min(k, len(b) - 1)])
+                if r.random() < 0.5:
+                    it["v"] = r.choice(["changed", [1, 2], {"k": "c"}])
+                else:
+                    it["flag"] = {1: True, True: 1, 0: False, False: 0}[it["flag"]] if not isinstance(it["flag"], bool) or r.random() < 0.5 else int(it["flag"])
+        mode = r.choice(["by-id", "python-eq"])
+        preds = defaultdict(lambda: [operator.__eq__])
+        if mode == "by-id":
+            preds["/"] = [lambda x, y: isinstance(x, dict) and isinstance(y, dict) and x.get("id") == y.get("id")]
+        cfgd = DiffConfig(predicates=preds)
+        col.eval()
+        try:
+            d = generic_diff(a, b, path="", config=cfgd)
+        except Exception as e:
+            col.count("diff_raised_under_custom_config")
+            continue
+        col.count("generic_diffs_under_caller_config:" + mode)
+        check_diff(col, a, d, "generic", {"a": a, "b": b, "config": mode})
     for j in range(spec["pairs"]):
         gen = NBGen(r, exotic=(j % 3 == 0))
         cls, a, b, rec, waste = valid_pair(gen)
